@@ -32,6 +32,8 @@ type Gen struct {
 	ids   int
 	mark  int
 	dicts int
+	// noQual marks paths the generator never references (reserved for Anon-only use)
+	noQual map[int]bool
 }
 
 var fabBases = []string{"d", "D", "d-go", "go-d", "d.v2", "v2", "1d", "für", "if", "len", "fmt", "rand", "x", "err", "int", "pkg", "d1", "d0", "template", "d_"}
@@ -116,6 +118,9 @@ func (g *Gen) qual(keyPath int) *Node {
 	p := keyPath
 	if p < 0 {
 		p = g.r.Intn(len(g.paths))
+		for tries := 0; g.noQual[p] && tries < 50; tries++ {
+			p = g.r.Intn(len(g.paths))
+		}
 	}
 	g.sym++
 	return &Node{K: "qual", I: p, S: fmt.Sprintf("S%d_%d", p, g.sym)}
@@ -163,7 +168,14 @@ func (g *Gen) keyPathFor(outer int) int {
 		if len(g.paths) == 0 {
 			return -2
 		}
-		return g.r.Intn(len(g.paths))
+		p := g.r.Intn(len(g.paths))
+		for tries := 0; g.noQual[p] && tries < 50; tries++ {
+			p = g.r.Intn(len(g.paths))
+		}
+		if g.noQual[p] {
+			return -2
+		}
+		return p
 	}
 	return -1
 }
